@@ -234,7 +234,7 @@ class Unit:
         if 'R7' in allowed:
             b.r7_option_combinators()
         b.r4_logging()
-        b.r2_assert()
+        b.r2_assert(as_guard=('R2g' in allowed))
         b.r3_panic_closure()
         b.r1_ref_patterns()
         b.flush()
@@ -286,7 +286,7 @@ class Unit:
             if 'R7' in allowed:
                 b.r7_option_combinators()
             b.r4_logging()
-            b.r2_assert()
+            b.r2_assert(as_guard=('R2g' in allowed))
             b.r3_panic_closure()
             b.r1_ref_patterns()
             b.flush()
